@@ -1,7 +1,19 @@
 """Regenerates MANIFEST.json from the table below (single source of truth for the claimed checks)."""
 import json, os, sys
 VERIF = os.path.dirname(os.path.dirname(os.path.abspath(__file__)))
+PIPE_TECH = 'TLA+ model checking (TLC) of the implementation-shaped stage models against the PipeProps.tla predicates + TLC-generated schedules and seeded random schedules replayed on the real goroutines under a testing/synctest controller + TLC trace validation (PipeTraceP.tla) of every recorded execution'
+PIPE_NOTE = "Trusted: TLC; testing/synctest (quiescence = every goroutine durably blocked; virtual clock); the harness' user functions and actors; PipeProps.tla as the reading of the statement. Select-arm choice and goroutine scheduling inside a step are explored exhaustively only in the model; on the real code they are sampled (each schedule replayed once per run; seeds vary). Bounds are in the evidence file (mc_runs constants)."
 CLAIMED = {
+ 'C05': dict(ref='5 (C05)', tech=PIPE_TECH, text="TLC explores every interleaving of producer, stage and consumers of the sequential stages (Map, FMap, Filter, ForEach, Void, Fold, Partition, Take n=0..4, TakeWhile; capacities 0,1,2; inputs up to 3-4 elements) in Stage.tla with the list-image predicates as invariants; one schedule per distinct quiescent state of the model plus random schedules are replayed on the real stages and every recorded execution is judged by the same predicates (prefix always, exact image and closure at the end, Take's consumption bound, one visit per element).", note=PIPE_NOTE),
+ 'C06': dict(ref='5 (C06)', tech=PIPE_TECH, text='As C05 with the cancel and the close placed at every quiescent point (TLC-generated) and at every point of every interleaving (model), plus gated user calls for mid-iteration cancels; predicates: no panic, delivered is a prefix of the uncancelled result, settle-1 (inputs closed + drained => closed and goroutines gone), settle-2 (cancelled + inputs closed => goroutines gone, receivers released) for all 14 stages incl. Emit, Unfold, Join, Throttling, StdErr on a virtual clock.', note=PIPE_NOTE),
+ 'C07': dict(ref='5 (C07)', tech=PIPE_TECH, text='All subsets of failing positions of inputs of length 3 (quick) / 4 (thorough) x Lift/Try/LiftF/TryF x Map/FMap x capacities 0,1,2 are model-checked; TLC-generated and random schedules (longer inputs, random failure sets, StdErr attached, Emit/Unfold) are replayed on the real code and judged: outputs = image of the elements before the first failure / of the non-failing ones, errors once each in order, calls stop at the first failure under Lift, both channels close, nothing blocks while the error channel is read.', note=PIPE_NOTE),
+ 'C08': dict(ref='5 (C08)', tech=PIPE_TECH, text='Executions of the real pipe.New pump (capacities 0..3, backlog draining to empty and refilling, cancel or close-by-sender at random points, with the receiver waiting or not) are judged by TLC: FIFO prefix, a send never parked before cancel/close, everything whose send completed before the cancel is delivered before the close, clean end of stream after close by the sender, no panic.', note=PIPE_NOTE),
+ 'C09': dict(ref='5 (C09)', tech=PIPE_TECH, text='Stage.tla with par workers (1..3) and a closer goroutine: every order of completion of in-flight gated user calls and every producer/consumer/cancel interleaving is model-checked; TLC-generated schedules (release orders included) and random ones are replayed on the real fork stages: multiset of results = sequential image, each element entered exactly once, no send on a closed channel (no panic), settle-1/2; thorough tier re-runs the schedules under the race detector with GOMAXPROCS 1, 2, 16.', note=PIPE_NOTE),
+ 'C10': dict(ref='5 (C10)', tech=PIPE_TECH, text='fork.Fold instance of Stage.tla (workers folding from Empty, collector combining par partials): worker counts 1..4, inputs of length 0..4 (also shorter than the worker count), monoids sum, product, max, min, bit-and, bit-or; gated Combine calls steer the distribution of elements over workers; predicates: exactly one value equal to the sequential left fold, each element combined once, then closed.', note=PIPE_NOTE),
+ 'C11': dict(ref='5 (C11)', tech=PIPE_TECH, text='Executions of the real Emit / Unfold on the virtual clock (capacities 0..2, frequencies 1..3 units, step functions succ/double/const, failing indices under Try and Lift, consumer paces incl. a keep-up consumer and a slow one, cancel at random points) judged by TLC: exact successive sequence, f called once per tick and never early, a consumer that keeps up gets one value per tick, both channels close and the goroutine exits after cancel.', note=PIPE_NOTE),
+ 'C12': dict(ref='5 (C12)', tech=PIPE_TECH, text='Executions of the real Join (0..3 inputs, capacities 0,1, tagged values, random interleavings of sends on different inputs, closes, receives and cancel) judged by TLC: per-input order kept, nothing invented or duplicated, the output closes (uncancelled) only after every input was closed and drained and then contains exactly all elements.', note=PIPE_NOTE),
+ 'C13': dict(ref='5 (C13)', tech=PIPE_TECH, text='Executions of the real Throttling on the virtual clock (ops 1..3, interval 2..3, capacities 0..2; random arrival patterns, saturation and idle-then-burst drivers) judged by TLC on the recorded virtual timestamps: order and completeness, no window of one interval with more than 2*ops+1+c deliveries before cancel, pacing bracket under saturation.', note=PIPE_NOTE),
+
  "C18": dict(ref="5 (C18)", tech="TLA+ model checking (TLC) of SkipList.tla + replay of every TLC-generated structure/transition/history into the real list + TLC trace validation of random histories",
    text="TLC explores every reachable skip-list structure over a small key universe and all node heights and shows that the implementation-shaped model refines an ordered map; every structure, transition and short history TLC generates is replayed through the real list (heights injected), and long random histories with real random heights are judged step by step by TLC against the map and printed-form predicates.",
    note="Trusted: TLC, the Go harness' parser of String(), the transcription of skip/Put/Remove into SkipList.tla (bound to the code by exact printed-form comparison, reported as SPEC-DRIFT). Bounds: keys<=5, levels<=4 exhaustive; random histories <=1200 ops over <=18 keys."),
@@ -28,5 +40,6 @@ def main():
          "notes": "All verdicts come from executions of the code in /repo's working tree; see DESIGN.md."}
     json.dump(m, open(os.path.join(VERIF, "MANIFEST.json"), "w"), indent=1)
 HOOKS = ["04a01f3"]
+FIXES = ["6810e97", "060801a", "a639635", "b38c68d"]
 if __name__ == "__main__":
     main()
